@@ -1532,10 +1532,11 @@ class H2Connection:
         )
 
         events = []
-        self.incoming_buffer.add_data(data)
-        self.incoming_buffer.max_frame_size = self.max_inbound_frame_size
 
         try:
+            self.incoming_buffer.add_data(data)
+            self.incoming_buffer.max_frame_size = self.max_inbound_frame_size
+
             for frame in self.incoming_buffer:
                 events.extend(self._receive_frame(frame))
         except InvalidPaddingError:
